@@ -33,6 +33,21 @@ Catalogues (all enumerated completely, nothing sampled)
                          followed by one more plain discovery request (the liveness probe)
   sub-check `server`   : Server.run for every interface configuration of SERVER_CFGS x every subset of interfaces that
                          fail to start; the listener created by the server receives one discovery request
+  sub-check `restart`  : Server.run through 1..2 (thorough: 3) iterations of its restart loop.  Plan = interface
+                         configuration of the first run (SERVER_CFGS) and, for every later run, the same list or one of
+                         ALT_CFGS (a restart_hook that reloads a changed configuration) x every subset of interfaces
+                         failing to start in every run (a port that can no longer be bound after the restart) x both orders
+                         of the interface threads.  Here the listener thread is a real thread under strict hand-off
+                         (ParkedThread): it runs only while the exploring thread waits for it and parks in recvfrom when
+                         nothing is queued - so a listener stays blocked, as in the running server, until its socket is
+                         closed.  While the node is up a discovery request is broadcast (it reaches EVERY socket still
+                         bound to the discovery port), then the environment calls dispatcher.restart() (= Server.restart;
+                         last run: Server.shutdown()), and after run() has returned one more request is broadcast.
+                         Oracle: in run k only the listener created in run k sends, every port it names belongs to a
+                         tcp:// interface opened in run k, the request is answered once per such port; after the end
+                         nothing is sent at all (the node listens on no port).  Signatures separate the listener of the
+                         current run (`C19:restart:{announce,answer}:...`) from a listener of a previous run that still
+                         answers (`C19:restart:listener-of-a-previous-run-still-answers:...`).
   interface lists: one tcp; tcp + ws; two tcp; port 1; port 65535; port 1 + 65535; four-digit port; ws only (no tcp)
   every `pure` / `mix` / `identity` case runs the real loop on [discovery request] and judges broadcast and answers.
 
@@ -71,6 +86,7 @@ import itertools
 import json
 import logging
 import re
+import threading
 
 from vf import core, nodes    # nodes binds get_version in frappy.protocol.discovery to a constant
 
@@ -215,8 +231,9 @@ SERVER_CFGS = [      # (interface, secondary)
 
 def bounds(tier):
     if tier == 'quick':
-        return dict(w=4, depth=2, maxlen=640, mix_eids=1, mix_ifaces=['tcp', 'tcp+ws', 'port1+65535', 'four-digit'])
-    return dict(w=8, depth=3, maxlen=700, mix_eids=len(EIDS), mix_ifaces=list(IFACES))
+        return dict(w=4, depth=2, maxlen=640, mix_eids=1, mix_ifaces=['tcp', 'tcp+ws', 'port1+65535', 'four-digit'],
+                    restart_runs=2)
+    return dict(w=8, depth=3, maxlen=700, mix_eids=len(EIDS), mix_ifaces=list(IFACES), restart_runs=3)
 
 
 # ---------------------------------------------------------------------------------------------------------------
@@ -533,6 +550,11 @@ def shard_fn(shard):
             for fail in itertools.combinations(range(len(uris)), r):
                 for reverse in (False, True):
                     run_server(part, interface, secondary, list(fail), reverse)
+    elif sub == 'restart':
+        _, idx = shard
+        for plan in restart_scenarios(idx, b['restart_runs']):
+            for reverse in (False, True):
+                run_restart(part, plan, reverse)
     else:
         raise core.Inconclusive(f'unknown shard {shard!r}')
     return part
@@ -676,6 +698,344 @@ def run_server(part, interface, secondary, fail, reverse=False):
 
 
 # ---------------------------------------------------------------------------------------------------------------
+# Server.run over several iterations (Server.restart): which listener says what in which run
+
+class ParkedThread:
+    """the listener thread of Server.run: a real thread under strict hand-off - it only runs while the exploring thread
+    waits for it, and it runs until it has to wait in recvfrom with nothing to receive (parks) or ends.  So a listener
+    stays blocked in recvfrom, as in the running server, until somebody closes its socket."""
+    TIMEOUT = 20
+
+    def __init__(self, func):
+        self.func = func
+        self.go = threading.Semaphore(0)
+        self.back = threading.Semaphore(0)
+        self.done = False
+        self.exc = None
+        self.thread = threading.Thread(target=self._main, daemon=True)
+        self.thread.start()
+
+    def _main(self):
+        self.go.acquire()
+        try:
+            self.func()
+        except BaseException as e:      # noqa  the thread dies; recorded for the oracle
+            self.exc = e
+        self.done = True
+        self.back.release()
+
+    def resume(self):
+        """exploring thread: let the listener run until it parks or ends"""
+        if self.done:
+            return
+        self.go.release()
+        if not self.back.acquire(timeout=self.TIMEOUT):
+            raise core.Inconclusive('listener thread did not come back')
+
+    def park(self):
+        """listener thread, inside recvfrom: nothing to receive"""
+        self.back.release()
+        if not self.go.acquire(timeout=10 * self.TIMEOUT):
+            raise OSError(9, 'harness gone')
+
+    def join(self, timeout=None):
+        pass
+
+
+class LiveSocket(ScriptedSocket):
+    """datagram socket of a listener inside a running server: blocks (parks the thread) while its queue is empty"""
+    def __init__(self, family=None, kind=None):
+        super().__init__(family, kind)
+        self.queue = []
+        self.thread = None
+        self.world = WORLD
+        self.index = len(WORLD.sockets)
+        self.run = WORLD.run
+        WORLD.sockets.append(self)
+
+    def recvfrom(self, bufsize):
+        self.calls += 1
+        while True:
+            if self.closed:
+                raise OSError(9, 'Bad file descriptor')
+            if self.queue:
+                self.consumed += 1
+                data, addr = self.queue.pop(0)
+                return data[:bufsize], addr
+            if self.thread is None or threading.current_thread() is not self.thread.thread:
+                raise core.Inconclusive('recvfrom on a listener socket outside its listener thread')
+            self.thread.park()
+
+    def sendto(self, data, addr):
+        self.calls += 1
+        self.world.sends.append((self.world.run, self.world.down, self.index, self.consumed, bytes(data), addr))
+        return len(data)
+
+    def close(self):
+        self.closed = True
+        self.closed_by_code = not self.world.cleanup
+        if self.thread is not None and threading.current_thread() is not self.thread.thread:
+            self.thread.resume()        # the blocked recvfrom fails, the loop returns
+
+
+class World:
+    """environment of one Server.run execution: the runs planned, what was opened in which run, everything sent"""
+    def __init__(self, node, runs, reverse):
+        self.node, self.runs = node, runs
+        self.run = 0                # index of the current iteration of Server.run
+        self.down = False           # the node was shut down / run() ended: it listens on nothing
+        self.cleanup = False
+        self.sockets = []
+        self.sends = []             # (run, down, socket index, datagrams consumed, data, address)
+        self.started = [[] for _ in runs]
+        self.up_seen = [False] * len(runs)
+        self.pending = []
+        self.reverse = reverse
+        self.armed = False
+
+    # --- stand-ins for threads in frappy.server
+    def mkthread(self, func, *args, **kwds):
+        owner = getattr(func, '__self__', None)
+        if isinstance(owner, discovery.UDPListener):
+            thread = ParkedThread(func)
+            owner.sock.thread = thread
+            thread.resume()         # start-up broadcast, then parked in recvfrom
+            self.armed = True       # this iteration of Server.run has its listener: the next join means "node is up"
+            return thread
+        self.pending.append((func, args, kwds))
+        return self
+
+    def run_pending(self):
+        while self.pending:
+            func, args, kwds = self.pending.pop(-1 if self.reverse else 0)
+            func(*args, **kwds)
+
+    def join(self, timeout=None):
+        """Server.run waits for its interface threads = the node is up: the environment acts"""
+        self.run_pending()
+        if self.armed and not self.down:
+            self.armed = False
+            self.up_seen[self.run] = True
+            self.node_is_up()
+
+    def deliver(self, data, addr):
+        """a broadcast datagram reaches every socket bound to the discovery port that is still open"""
+        for sock in list(self.sockets):
+            if not sock.closed and sock.thread is not None and not sock.thread.done:
+                sock.queue.append((data, addr))
+                sock.thread.resume()
+
+    def node_is_up(self):
+        k = self.run
+        self.deliver(REQUEST, addr_of(k))
+        if k + 1 < len(self.runs):
+            nxt = self.runs[k + 1]
+
+            def hook():
+                self.node.node_cfg['interface'] = nxt['interface']
+                self.node.node_cfg.pop('secondary', None)
+                if nxt['secondary']:
+                    self.node.node_cfg['secondary'] = list(nxt['secondary'])
+            self.node.restart_hook = hook       # a subclass may reload its configuration here
+            FakeInterface.FAIL = failing_uris(nxt)
+            self.node.dispatcher.restart()      # what a `restart` request of the router does: Server.restart
+            self.run = k + 1                    # the interfaces of run k are shut down now
+        else:
+            self.node.shutdown()
+            self.down = True
+
+    def finish(self):
+        """after run() returned: one more request, then close whatever the code under test left open"""
+        self.down = True
+        self.deliver(REQUEST, addr_of(len(self.runs)))
+        leaked = [s for s in self.sockets if not s.closed]
+        self.cleanup = True
+        for sock in leaked:
+            sock.close()
+        return leaked
+
+
+WORLD = None
+
+
+class WorldInterface(FakeInterface):
+    def __init__(self, scheme, logger, options, srv):
+        super().__init__(scheme, logger, options, srv)
+        WORLD.started[WORLD.run].append(self.uri)
+
+
+def world_get_class(spec):
+    if spec in frappy.server.Server.INTERFACES.values():
+        return WorldInterface
+    return _real_get_class(spec)
+
+
+class WorldMultiEvent(frappy.server.MultiEvent):
+    def wait(self, timeout=None):
+        if WORLD is not None:
+            WORLD.run_pending()
+        if self.events:
+            raise core.Inconclusive(f'MultiEvent.wait would block: waiting for {self.waiting_for()}')
+        return super().wait(timeout)
+
+
+def norm_uris(run):
+    return [u if '://' in u else f'tcp://{u}' for u in [run['interface']] + list(run['secondary'])]
+
+
+def failing_uris(run):
+    uris = norm_uris(run)
+    return {uris[i] for i in run['fail']}
+
+
+RESTART_EID, RESTART_DESC = 'ex.frappy.server', 'server started listener'
+
+
+def run_restart(part, runs, reverse=False):
+    """the real Server.run through len(runs) iterations: run k opens runs[k] (minus the interfaces failing to start),
+    a discovery request is broadcast while the node is up, then Server.restart() (last run: Server.shutdown()),
+    a last request after the end.  Judged: who sent what in which run."""
+    global WORLD          # pylint: disable=global-statement
+    import io
+    import sys
+    case = {'kind': 'restart', 'runs': runs, 'reverse': reverse}
+    part.evaluations += 1
+    part.states += 1
+    if len(runs) > 1:
+        part.nontrivial += 1
+    first = runs[0]
+    node_cfg = {'interface': first['interface'], 'equipment_id': RESTART_EID, 'description': RESTART_DESC}
+    if first['secondary']:
+        node_cfg['secondary'] = list(first['secondary'])
+    node = nodes.Node({}, node_cfg=node_cfg, start=True)
+    world = WORLD = World(node, runs, reverse)
+    saved = frappy.server.mkthread, frappy.server.get_class, frappy.server.MultiEvent, sys.stdout, SocketShim.socket
+    frappy.server.mkthread, frappy.server.get_class, frappy.server.MultiEvent = world.mkthread, world_get_class, WorldMultiEvent
+    SocketShim.socket = LiveSocket
+    FakeInterface.FAIL = failing_uris(first)
+    FakeInterface.STARTED = []
+    sys.stdout = io.StringIO()
+    exc = None
+    leaked = []
+    try:
+        try:
+            node._restart = True
+            node.run()                      # the real Server.run
+        except core.Inconclusive:
+            raise
+        except BaseException as e:          # noqa
+            exc = e
+        leaked = world.finish()
+    finally:
+        world.cleanup = True
+        for sock in world.sockets:
+            if not sock.closed:
+                sock.close()
+        frappy.server.mkthread, frappy.server.get_class, frappy.server.MultiEvent, sys.stdout, SocketShim.socket = saved
+        WORLD = None
+        node.close()
+    what = Lazy(lambda: 'Server.run: ' + '; then restart: '.join(
+        f'run {k + 1} interfaces {norm_uris(r)}' + (f' of which {sorted(failing_uris(r))} fail to start' if r['fail'] else '')
+        for k, r in enumerate(runs)) + f' (interface threads run {"last" if reverse else "first"} created first)')
+    part.transitions += 1 + sum(s.calls for s in world.sockets) + sum(len(norm_uris(r)) for r in runs[:world.run + 1])
+    part.traces += 1
+    if exc is not None:
+        part.violation(f'C19:restart:run-raises:{type(exc).__name__}', case, f'{what}: {exc!r}')
+        part.outcomes['restart:raises'] += 1
+        return
+    reached = world.run + 1
+    for k in range(reached):
+        expect = [u for u in norm_uris(runs[k]) if u not in failing_uris(runs[k])]
+        if sorted(world.started[k]) != sorted(expect):
+            raise core.Inconclusive(f'{what}: run {k + 1} started {world.started[k]}, planned {expect}')
+    nbad = sum(v[0] for v in part.violations.values())
+    when = lambda k: 'first-run' if k == 0 else 'after-restart'      # noqa
+    # every listener thread must survive its datagrams
+    for sock in world.sockets:
+        if sock.thread is not None and sock.thread.exc is not None:
+            part.violation(f'C19:restart:listener-thread-died:{type(sock.thread.exc).__name__}', case,
+                           f'{what}: listener of run {sock.run + 1}: {sock.thread.exc!r}')
+    # one listener per run that opened something
+    for k in range(reached):
+        n = sum(1 for s in world.sockets if s.run == k)
+        if world.started[k] and n != 1:
+            part.violation(f'C19:restart:{n}-listeners-started:{when(k)}', case, f'{what}: run {k + 1}')
+    # every datagram: sent by the listener of THIS run, naming a tcp port opened in THIS run
+    answers = {}
+    for run, down, idx, pos, data, addr in world.sends:
+        sock = world.sockets[idx]
+        ports = [] if down else tcp_ports(world.started[run])
+        phase = 'announce' if pos == 0 else 'answer'
+        problem, _ = judge_message(data, RESTART_EID, RESTART_DESC, ports)
+        try:
+            port = json.loads(data.decode('utf-8')).get('port')
+        except Exception:      # noqa
+            port = None
+        if down:
+            part.violation('C19:restart:listener-still-answers-after-the-node-stopped', case,
+                           f'{what}: after the end of Server.run the listener created in run {sock.run + 1} sent {data[:200]!r} to '
+                           f'{addr}; the node listens on no port any more')
+        elif sock.run != run:
+            kind = 'port-nobody-listens-on' if problem else 'duplicate-of-the-current-answer'
+            part.violation(f'C19:restart:listener-of-a-previous-run-still-answers:{kind}', case,
+                           f'{what}: in run {run + 1} (tcp ports {ports}) the listener created in run {sock.run + 1} sent port '
+                           f'{port!r} to {addr}')
+        else:
+            if problem:
+                part.violation(f'C19:restart:{phase}:{problem}:{when(run)}', case,
+                               f'{what}: in run {run + 1} the node listens on tcp ports {ports} but its listener sent a '
+                               f'{phase} datagram with port {port!r}: {data[:200]!r}')
+            if phase == 'answer':
+                answers.setdefault(run, []).append((addr, port))
+    for k in range(reached):
+        if not world.up_seen[k]:
+            continue
+        ports = tcp_ports(world.started[k])
+        got = [port for addr, port in answers.get(k, []) if addr == addr_of(k)]
+        if sorted(map(repr, got)) != sorted(map(repr, ports)):
+            part.violation(f'C19:restart:answer:not-exactly-one-answer-per-tcp-port:{when(k)}', case,
+                           f'{what}: the request in run {k + 1} was answered by the current listener with ports {got}, '
+                           f'the node listens on {ports}')
+        if any(addr != addr_of(k) for addr, _ in answers.get(k, [])):
+            part.violation(f'C19:restart:answer:sent-to-an-address-that-sent-nothing:{when(k)}', case, f'{what}: run {k + 1}')
+    bad = nbad != sum(v[0] for v in part.violations.values())
+    label = f'{len(runs)}-runs-planned:{reached}-reached:' + ('VIOLATION' if bad else 'consistent')
+    if leaked:
+        label += ':listener-sockets-left-open'
+    part.extra['restart_listener_sockets_left_open'] += len(leaked)
+    part.outcomes['restart:' + label] += 1
+    if part.evaluations % 37 == 1:
+        part.sample({'sub': 'restart', 'runs': [{'interfaces': norm_uris(r), 'fail': sorted(failing_uris(r))} for r in runs],
+                     'sent': [[run + 1, 'down' if down else 'up', f'listener-of-run-{world.sockets[idx].run + 1}', len(d)]
+                              for run, down, idx, pos, d, a in world.sends][:8], 'result': label})
+
+
+ALT_CFGS = [('tcp://10767', []), ('tcp://10769', ['tcp://10768'])]      # what a restart may change the interfaces to
+
+
+def fail_subsets(cfg):
+    n = 1 + len(cfg[1])
+    return [list(c) for r in range(n + 1) for c in itertools.combinations(range(n), r)]
+
+
+def restart_scenarios(first_idx, nruns):
+    """all plans starting with SERVER_CFGS[first_idx]: every later run keeps the interface list or changes it to one of
+    ALT_CFGS; every subset of interfaces failing to start in every run (a run in which all fail ends the server)"""
+    def rec(prefix, cfg):
+        for fail in fail_subsets(cfg):
+            run = {'interface': cfg[0], 'secondary': list(cfg[1]), 'fail': fail}
+            plan = prefix + [run]
+            yield plan
+            if len(plan) < nruns and len(fail) < 1 + len(cfg[1]):
+                seen = []
+                for nxt in [cfg] + ALT_CFGS:
+                    if nxt not in seen:
+                        seen.append(nxt)
+                        yield from rec(plan, nxt)
+    yield from rec([], SERVER_CFGS[first_idx])
+
+
+# ---------------------------------------------------------------------------------------------------------------
 
 def run(ctx):
     b = bounds(ctx.tier)
@@ -697,6 +1057,8 @@ def run(ctx):
                             for first in [None] + DNAMES], name='datagrams')
     if want('server'):
         ctx.pmap(shard_fn, [('server', i) for i in range(len(SERVER_CFGS))], name='server')
+    if want('restart'):
+        ctx.pmap(shard_fn, [('restart', i) for i in range(len(SERVER_CFGS))], name='restart')
     ctx.rule = (
         'enumeration of the real UDPListener (constructor + run() on a scripted datagram socket): '
         f'pure = {len(EIDS)} equipment ids x 8 character classes x every description length 0..{b["maxlen"]} x 8 interface lists; '
@@ -704,25 +1066,32 @@ def run(ctx):
         f'+-{b["w"]} of the 508 byte limit x {len(b["mix_ifaces"])} interface lists; identity = 8 classes x every equipment id length around the point '
         'where the identity alone reaches 508 bytes x 6 descriptions x 8 interface lists; datagrams = 6 identities x 8 interface '
         f'lists x broadcast on/off x every sequence of <= {b["depth"]} datagrams over {len(DNAMES)} kinds (+ liveness probe); '
-        'server = real Server.run x 7 interface configurations x every subset of failing interfaces. '
+        'server = real Server.run x 7 interface configurations x every subset of failing interfaces; '
+        f'restart = real Server.run over <= {b["restart_runs"]} iterations (Server.restart between them): 7 first configurations x '
+        '{same, 2 changed} interface lists per later run x every subset of interfaces failing to start in every run x 2 thread '
+        'orders, a broadcast request in every run and one after the end, listener threads parked in recvfrom until closed. '
         'evaluations = executions of constructor + loop; distinct_nontrivial = executions in which the description must be cut / '
         'the identity does not fit / a non-request datagram is in the sequence / an interface fails; states = distinct cases; '
         'transitions = calls into the listener + socket calls made by it')
     ctx.coverage.update(
         bound_completed=f'description lengths 0..{b["maxlen"]}, mixture window +-{b["w"]}, datagram sequences depth <= {b["depth"]} '
-                        f'(+1 probe), Server.run with all failing subsets',
+                        f'(+1 probe), Server.run with all failing subsets, restart loop <= {b["restart_runs"]} iterations',
         datagram_kinds=len(DNAMES), interface_lists=len(IFACES), character_classes=len(CLASSES))
     ctx.assume('the fake socket delivers each datagram whole, truncated to the buffer size asked for; recvfrom raising OSError '
                'is the shutdown path of the real code',
                'firmware is "FRAPPY " + a constant version (get_version() raises in this checkout and is bound by the harness)',
                'Server.run: interface threads run inline (each interface starts or fails, then serves until shut down at once); '
+               'restart: the listener thread is a real thread under strict hand-off with the exploring thread (never concurrent); '
+               'a broadcast request reaches every open socket bound to the discovery port (SO_REUSEPORT); '
                'real sockets, the 12 s start-up timeout and the Windows branch are not covered',
                'equipment ids / descriptions outside the eight character classes (e.g. lone surrogates) are not covered')
 
 
 def replay(case):
     part = core.Part()
-    if case['kind'] == 'server':
+    if case['kind'] == 'restart':
+        run_restart(part, case['runs'], case.get('reverse', False))
+    elif case['kind'] == 'server':
         run_server(part, case['interface'], case['secondary'], case['fail'], case.get('reverse', False))
     else:
         run_listener(part, case['eid'], case['desc'], case['ifaces'], tuple(case['datagrams']), case['broadcast'], case['sub'])
